@@ -112,6 +112,7 @@ class Run:
         self.listeners = {r: self._listener(r) for r in REGS}
         self.model = Model()
         self.pos = 0
+        self.executed = 0
         self.violations = []
         self.stats = dict(idle_truth_checks=0, alternation_events=0, reboot_order_checks=0, offered_required_checks=0,
                           live_while_registered=False)
@@ -163,6 +164,7 @@ class Run:
 
     # ---- scripted actions
     def do(self, pos, a):
+        self.executed += 1  # script order is execution order (a hopped action is the last one of its instant)
         d = self.prot.discovery
         if a["kind"] == "msg":
             self.prot.datagram_received(a["data"], SOURCES[a["src"]], a["mc"])
@@ -207,7 +209,9 @@ class Run:
     def on_idle(self):
         T = self.h.loop.time()
         m = self.model
-        while self.pos < len(self.script) and self.script[self.pos][0] <= T + RES:
+        # the model follows what has actually been executed (an action scheduled exactly one resolution after T may or may
+        # not have run in the iteration that just ended - comparing instants cannot tell)
+        while self.pos < min(len(self.script), self.executed):
             t, rank, a = self.script[self.pos]
             m.expire(t, inclusive=False)
             m.apply(t, self.pos, a)
